@@ -308,7 +308,16 @@ def r_py_method(rep, f):
         for l in lits(a["pat"]):
             table[l] = d
     want = {"RK45": "DOPRI5", "DOPRI5": "DOPRI5", "RK23": "RK23", "DOP853": "DOP853", "RADAU": "RADAU", "BDF": "BDF", "RK4": "RK4"}
-    upper = tast.contains(ms[0]["scrut"], lambda q: q.get("k") == "MethodCall" and q.get("name") == "to_uppercase")
+    def scrut_exprs(e, depth=0):
+        """the scrutinee and, through single-assignment locals, the expressions it is computed from"""
+        out = [e]
+        if depth < 4:
+            for p_ in tast.find(e, lambda q: q.get("k") == "Path" and q.get("res") == "local"):
+                lets = tast.find(b["body"], lambda z: z.get("k") == "Let" and z["pat"].get("id") == p_.get("id") and z.get("init") is not None)
+                if len(lets) == 1:
+                    out += scrut_exprs(lets[0]["init"], depth + 1)
+        return out
+    upper = any(tast.contains(x, lambda q: q.get("k") == "MethodCall" and q.get("name") in ("to_uppercase", "to_ascii_uppercase")) for x in scrut_exprs(ms[0]["scrut"]))
     for k, v in want.items():
         key = "%s:%s" % (key0, k)
         if table.get(k) == v:
